@@ -1141,3 +1141,24 @@ Theorem C03_synrule_object_backward_total : forall (implicit_temp : bool) (inp :
 Proof. exact synrule_object_backward_total. Qed.
 Print Assumptions C03_synrule_object_backward_total.
 
+(** THE IMPLICIT-TEMPLATE MODE, TOTAL — forwards and backwards (the explicit-hydrogen stage is off, so nothing can raise):
+    hypotheses on the template (well formed, closed bonds), the substrate and the matcher's contract; every script of reads
+    returns the specified values, its_list returns a list, every graph in it is an instance of the (inverted) template and is
+    balanced if the template is *)
+Theorem C03_implicit_reactor_total : forall (invert : bool) (inp : rin) (tpl : its),
+  i_explicit inp = false ->
+  i_rule inp = synrule (if invert then invert_template tpl else tpl) false ->
+  wf_rcb tpl = true -> edges_closedb tpl = true ->
+  wf_hostb (i_host inp) = true ->
+  forallb (call_okm (i_host inp) (fst (its_decompose (if invert then invert_template tpl else tpl)))) (i_calls inp) = true ->
+  nocrash inp /\
+  (forall ops : list rop, run_ops inp rs0 ops = map (spec_val inp) ops) /\
+  (exists gs : list its, spec_its inp = Some gs) /\
+  (forall (gs : list its) (g : its), spec_its inp = Some gs -> In g gs ->
+     instance_of (i_host inp) (if invert then invert_template tpl else tpl) g /\
+     (balancedb tpl = true ->
+        (forall e : N, elem_count e (fst (its_decompose g)) = elem_count e (snd (its_decompose g))) /\
+        total_charge (fst (its_decompose g)) = total_charge (snd (its_decompose g)))).
+Proof. exact implicit_reactor_total. Qed.
+Print Assumptions C03_implicit_reactor_total.
+
